@@ -58,9 +58,18 @@ def parseOp (l : Array String) : Option Op := do
   | "setEndpoint" =>
     let p ← parsePt l 3
     let w := l[2]?.getD ""
-    if w == "1" then return .setEndpoint id .src p
-    else if w == "2" then return .setEndpoint id .tar p
+    if w == "1" then return .setEndpoint id .src (.pt p)
+    else if w == "2" then return .setEndpoint id .tar (.pt p)
     else none
+  | "setEndpointPin" =>
+    let w := l[2]?.getD ""
+    let e := CEnd.pin (nat! (l[3]?.getD "0")) (nat! (l[4]?.getD "0"))
+    if w == "1" then return .setEndpoint id .src e
+    else if w == "2" then return .setEndpoint id .tar e
+    else none
+  | "newPin" =>
+    let o ← parsePt l 3
+    return .newPin id (nat! (l[2]?.getD "0")) o.x o.y
   | "setTransactionUse" => return .setTransactionUse (l[1]?.getD "0" == "1")
   | "processTransaction" => return .processTransaction
   | _ => none
@@ -71,7 +80,8 @@ def opName : Op → String
   | .moveRel j .. => if j then "moveJunctionRel" else "moveShapeRel"
   | .delete j .. => if j then "deleteJunction" else "deleteShape"
   | .newConn .. => "newConn"
-  | .setEndpoint .. => "setEndpoint"
+  | .setEndpoint _ _ p => if p.isPin then "setEndpointPin" else "setEndpoint"
+  | .newPin .. => "newPin"
   | .setTransactionUse .. => "setTransactionUse"
   | .processTransaction => "processTransaction"
 
@@ -82,10 +92,14 @@ def branchOf (st : State) : Op → String
     else if hasAct st.queue .move id then "move.overwrite-queued"
     else "move.push"
   | .delete _ id => if hasAct st.queue .move id then "delete.erases-queued-move" else "delete.push"
-  | .setEndpoint c e _ =>
+  | .setEndpoint c e p =>
+    let from_ := match (findConn st.scene c).bind (·.getEnd e) with
+      | some q => if q.isPin then "pin" else "point"
+      | none => "unset"
+    let kind := s!"{from_}-to-{if p.isPin then "pin" else "point"}."
     match findAct st.queue .connChange c with
-    | some a => if a.conns.any (·.1 == e) then "endpoint.overwrite-same-end" else "endpoint.append-other-end"
-    | none => "endpoint.push"
+    | some a => "endpoint." ++ kind ++ (if a.conns.any (·.1 == e) then "overwrite-same-end" else "append-other-end")
+    | none => "endpoint." ++ kind ++ "push"
   | .processTransaction => if st.queue.isEmpty then "txn.empty" else "txn.flush"
   | _ => "other"
 
@@ -112,6 +126,20 @@ def junctionBox (g : Poly) : Option Rect :=
   match g with
   | [p] => some ⟨p.x - 1, p.y - 1, p.x + 1, p.y + 1⟩
   | _ => none
+
+/-- `ShapeConnectionPin::position()` for proportional offsets and insideOffset 0: a point of the bounding box -/
+def pinPosition (g : Poly) (xo yo : Rat) : Option Pt :=
+  (rectOfPoly g).map fun r => ⟨r.x0 + xo * (r.x1 - r.x0), r.y0 + yo * (r.y1 - r.y0)⟩
+
+/-- the points at which a connector end may sit: the free point; the junction's position; the positions of
+    the pins of that class on the shape (model polygon) -/
+def endCands (sc : Scene) (pins : List (Nat × Nat × Rat × Rat)) (e : CEnd) : List Pt :=
+  if !e.isPin then [⟨e.x, e.y⟩] else
+  match findObst sc e.anchor with
+  | none => []
+  | some o =>
+    if o.isJ then o.geom
+    else (pins.filter fun p => p.1 == e.anchor && p.2.1 == e.cls).filterMap fun p => pinPosition o.geom p.2.2.1 p.2.2.2
 
 def shapeRects (sc : Scene) : List Rect :=
   sc.obsts.filterMap fun o => if o.isJ || !o.active then none else (rectOfPoly o.geom).map (·.shrink tol)
@@ -235,6 +263,9 @@ structure St where
   estNo : List Nat := []                    -- connectors for which the model's could-be-shorter test (c) ran in this
                                             -- transaction and certainly said "no" (and nothing else flagged them)
   decided : Option Reroute.RState := none   -- model: flags with which routing starts
+  pinHist : Bool := false                           -- the history uses connection pins
+  pins : List (Nat × Nat × Rat × Rat) := []         -- (shape, class, xOffset, yOffset) of every `newPin`
+  ppCur : List (Nat × Nat × Rat × Rat × Pt) := []   -- reported pin positions of the current observation
   stats : List (String × Nat) := []
   checkedTxns : Nat := 0
   bentRoutes : Nat := 0
@@ -277,7 +308,7 @@ def vertexOk (sc : Scene) (orth : Bool) (buf : Rat) (o vn : Nat) (isConn : Bool)
   if orth then true else
   if isConn then
     match findConn sc o with
-    | some c => if vn == 1 then c.src == some p else if vn == 2 then c.dst == some p else true
+    | some c => if vn == 1 then c.src == some (.pt p) else if vn == 2 then c.dst == some (.pt p) else true
     | none =>
       match findObst sc o with            -- connection-pin vertex of a junction (its centre)
       | some ob => ob.active && ob.isJ && ob.geom == [p]
@@ -470,7 +501,9 @@ def checkTxn (s : St) : St := Id.run do
       | some c =>
         match (if e == 1 then c.src else c.dst) with
         | none => pure ()
-        | some p =>
+        | some pe =>
+          if pe.isPin then continue     -- a dummy pin-helper vertex: no containment is generated for it
+          let p : Pt := ⟨pe.x, pe.y⟩
           let want := (s.model.scene.obsts.filter fun o =>
             o.active && AdaptaVerif.Model.Geometry.inPoly (polysOf s.rpPrev o.id) (toG p) false).map (·.id)
           s := s.bump "contains.compared"
@@ -492,11 +525,26 @@ def checkTxn (s : St) : St := Id.run do
   for (kind, routes) in [("displayRoute", t.rt), ("route", t.rr)] do
     for (cid, r) in routes do
       match findConn sc cid with
-      | some { src := some a, dst := some b, .. } =>
+      | some { src := some ea, dst := some eb, .. } =>
         s := s.bump "routes.validated"
-        if !routeValidRect rects (toP a) (toP b) (r.toList.map toP) then
+        if ea.isPin || eb.isPin then s := s.bump "routes.validated-pin-end"
+        -- the attachment points the model allows for the two ends (a pin class may have several pins)
+        let ca := endCands sc s.pins ea
+        let cb := endCands sc s.pins eb
+        let a := (ca.find? fun q => r[0]? == some q).getD (ca.headD ⟨0, 0⟩)
+        let b := (cb.find? fun q => r.back? == some q).getD (cb.headD ⟨0, 0⟩)
+        if s.pinHist && s.orth && r.size == 2 && r[0]!.x != r[1]!.x && r[0]!.y != r[1]!.y then
+          -- orthogonal routing with pins: the A* search found no path and generatePath fell back to the straight
+          -- line between the end vertices (a 2-point diagonal "orthogonal" route); on the unchanged library this
+          -- happens for a fresh router too (whether a path existed is C03's business); counted, not judged
           invalid := cid :: invalid
-          s := s.setFail (.specfail s!"invalid-route {invalidKind sc s.buf a b r} {kind} conn={cid} txn-after-op={s.lastOp}: {showPts r} not a valid route from ({showR a.x},{showR a.y}) to ({showR b.x},{showR b.y}) for the model scene")
+          s := s.bump "routes.pin-orth-no-path-fallback-not-judged"
+        else if ca.isEmpty || cb.isEmpty then
+          s := s.setFail (.diverge s!"connector {cid} is attached to a pin class without pins in the model")
+        else if !routeValidRect rects (toP a) (toP b) (r.toList.map toP) then
+          invalid := cid :: invalid
+          let att := fun (e : CEnd) (cs : List Pt) => if e.isPin then s!"pin class {e.cls} of obstacle {e.anchor} at {showPts cs.toArray}" else s!"({showR e.x},{showR e.y})"
+          s := s.setFail (.specfail s!"invalid-route {invalidKind sc s.buf a b r} {kind} conn={cid} txn-after-op={s.lastOp}: {showPts r} not a valid route from {att ea ca} to {att eb cb} for the model scene")
       | _ => s := s.setFail (.diverge s!"route printed for connector {cid} whose ends are not both set in the model")
       -- junction obstacle boxes: the property text speaks of shapes, so a route through a junction box is
       -- not judged (only counted) - except for the through-two-corners class (same defect as for shapes),
@@ -535,7 +583,13 @@ def checkTxn (s : St) : St := Id.run do
         if changed && (lookup s.last cid).isSome then s := { s with rerouted := s.rerouted + 1 }
         match costEncl s.orth s.pen r, costEncl s.orth s.pen f with
         | some (il, ih), some (fl, fh) =>
-          if il > fh + tol then
+          if s.pinHist && (il > fh + tol || fl > ih + tol) then
+            -- histories with connection pins: on the unchanged library a fresh router and the incremental one reach
+            -- pins on shape borders along different channels (hugging the anchor's own border, ignoring the pin's
+            -- directions) and disagree in cost in BOTH directions, in both routing modes (report of fC06, suspected
+            -- C04-type defect of pin visibility); counted, not judged
+            s := s.bump (if il > fh + tol then "cost.pin-history-not-judged.fresh-cheaper" else "cost.pin-history-not-judged.incremental-cheaper")
+          else if il > fh + tol then
             -- is the fresh route better only through fewer bends (its pure length is not shorter)?
             let penOnly := match costEncl s.orth 0 r, costEncl s.orth 0 f with
               | some (ll, _), some (_, fh') => s.pen > 0 && ll ≤ fh' + tol
@@ -646,6 +700,28 @@ def stepLine (s : St) (l : Array String) : St :=
               (true, !s.model.queue.isEmpty || (s.rst.conns.any fun c => c.poly && c.flagged && Reroute.bothEnds s.model.scene c.id)) else (false, false)
           | _ => (false, false)
         let s := if lost then { s with rerouteOff := true } else s
+        -- connection pins: the reroute-decision model (Model/Reroute) does not know pin vertices / dummy ends
+        let s := match op with
+          | .newPin o cl xo yo => { s with rerouteOff := true, pinHist := true, pins := s.pins ++ [(o, cl, xo, yo)] }
+          | .setEndpoint _ _ p => if p.isPin then { s with rerouteOff := true, pinHist := true } else s
+          | _ => s
+        -- coverage of the pin-move refresh of this transaction: for every end attached to a moved obstacle, is
+        -- there a user change of that end queued in the same transaction (it must win) or not (refresh appended)
+        let s := match pend with
+          | some pre => Id.run do
+            let mut s := s
+            let qs := sortActions pre.queue
+            for a in qs do
+              if a.kind == Kind.move then
+                for t in attachedEnds pre.scene a.id do
+                  let user := match findAct qs .connChange t.1 with
+                    | some ca => ca.conns.any (·.1 == t.2.1)
+                    | none => false
+                  s := s.bump (if user then "pinmove.user-change-of-same-end-queued" else "pinmove.refresh-appended")
+              if a.kind == Kind.remove && !(attachedEnds pre.scene a.id).isEmpty then s := s.bump "pinmove.anchor-deleted-ends-retargeted"
+            if genPinMoves pre.scene qs != qs then s := s.bump "pinmove.transactions-with-refresh"
+            return s
+          | none => s
         let s := { s with twoBatches := two }
         let settingsOnly := pend.isNone && s.settingsDirty && (match op with | .processTransaction => true | _ => false)
         { s with model := step s.model op, noopExpected := noop && !settingsOnly, lastOp := opName op, dirty := dirty, rst := rst,
@@ -657,11 +733,17 @@ def stepLine (s : St) (l : Array String) : St :=
                                    active := rest[2]?.getD "0" == "1", geom := g.toList } :: s.obsO }
     | none => s.setFail (.diverge "unparsable os line")
   | "oc" =>
-    match parsePt rest 2, parsePt rest 5 with
+    match parsePt rest 4, parsePt rest 9 with
     | some a, some b =>
-      { s with obsC := { id := nat! (rest[0]?.getD "0"), src := if rest[1]?.getD "0" == "1" then some a else none,
-                         dst := if rest[4]?.getD "0" == "1" then some b else none } :: s.obsC }
+      let ea : CEnd := { x := a.x, y := a.y, anchor := nat! (rest[2]?.getD "0"), cls := nat! (rest[3]?.getD "0") }
+      let eb : CEnd := { x := b.x, y := b.y, anchor := nat! (rest[7]?.getD "0"), cls := nat! (rest[8]?.getD "0") }
+      { s with obsC := { id := nat! (rest[0]?.getD "0"), src := if rest[1]?.getD "0" == "1" then some ea else none,
+                         dst := if rest[6]?.getD "0" == "1" then some eb else none } :: s.obsC }
     | _, _ => s.setFail (.diverge "unparsable oc line")
+  | "pp" =>
+    match parsePt rest 2, parsePt rest 4 with
+    | some o, some q => { s with ppCur := (nat! (rest[0]?.getD "0"), nat! (rest[1]?.getD "0"), o.x, o.y, q) :: s.ppCur }
+    | _, _ => s.setFail (.diverge "unparsable pp line")
   | "orp" =>
     match parsePts rest 1 with
     | some g => { s with rpCur := (nat! (rest[0]?.getD "0"), g.toList.map toG) :: s.rpCur }
@@ -698,6 +780,19 @@ def stepLine (s : St) (l : Array String) : St :=
       return { s with decided := decided, lastActs := s.pendingTxn.map (fun (pre : State) => sortActions pre.queue),
                       pendingTxn := none, pendingSettings := false,
                       settingsDirty := s.settingsDirty && decided.isNone, rpPrev := s.rpCur, rpCur := [] }
+    -- connection pins: every pin the harness created sits where the model polygon puts it
+    let s := Id.run do
+      let mut s := s
+      for (o, cl, xo, yo, q) in s.ppCur do
+        s := s.bump "tie.pin-positions-compared"
+        match findObst s.model.scene o with
+        | none => s := s.setFail (.diverge s!"pin tie after {s.lastOp}: pin of class {cl} reported on obstacle {o}, which the model does not have")
+        | some ob =>
+          if !s.pins.contains (o, cl, xo, yo) then
+            s := s.setFail (.diverge s!"pin tie after {s.lastOp}: pin of class {cl} on obstacle {o} was never created")
+          else if pinPosition ob.geom xo yo != some q then
+            s := s.setFail (.diverge s!"pin tie after {s.lastOp}: pin of class {cl} on shape {o} is at ({showR q.x},{showR q.y}), the model polygon puts it at {showPts ((pinPosition ob.geom xo yo).toList.toArray)}")
+      return { s with ppCur := [] }
     let implO := sortBy Obst.id s.obsO
     let implC := sortBy Conn.id s.obsC
     let modO := sortBy Obst.id s.model.scene.obsts
@@ -710,7 +805,14 @@ def stepLine (s : St) (l : Array String) : St :=
         | some (a, b) => s!"obstacle {a.id}: router active={a.active} geom={showPts a.geom.toArray} / model id={b.id} active={b.active} geom={showPts b.geom.toArray}"
         | none => s!"router has {implO.length} obstacle objects, model {modO.length}"
       s.setFail (.diverge s!"scene tie after {s.lastOp}: {what}")
-    else if implC != modC then s.setFail (.diverge s!"scene tie after {s.lastOp}: connector endpoints differ")
+    else if implC != modC then
+      let showE := fun (e : Option CEnd) => match e with
+        | none => "unset"
+        | some e => if e.isPin then s!"pin class {e.cls} of obstacle {e.anchor}" else s!"({showR e.x},{showR e.y})"
+      let what := match (implC.zip modC).find? fun (a, b) => a != b with
+        | some (a, b) => s!"connector {a.id}: router src={showE a.src} dst={showE a.dst} / model (conn {b.id}) src={showE b.src} dst={showE b.dst}"
+        | none => s!"router has {implC.length} connectors, model {modC.length}"
+      s.setFail (.diverge s!"scene tie after {s.lastOp}: connector ends differ: {what}")
     else s
   | "txn" => { s with inTxn := true, txn := { dumped := rest[1]?.getD "0" == "1" } }
   | "ff" => { s with txn := { s.txn with fresh := rest[0]?.getD "0" == "1" } }
